@@ -70,11 +70,14 @@ func (c *DNSCache) lookup(ctx context.Context, name string) (*dnsCacheEntry, boo
 
 	// If we've hit, or exceed somehow, the maximum size of the cache
 	// then we will need to evict the oldest entries to make room.
-	for len(c.entries) >= c.size {
-		name, ts := "", time.Now().Add(c.duration)
+	for len(c.entries) >= c.size && len(c.entries) > 0 {
+		// Evict the entry that expires first. There is always one to evict here:
+		// waiting for an entry older than a brand new one would spin forever, with
+		// the lock held, when the cache size is zero or all timestamps coincide.
+		name, ts, found := "", time.Time{}, false
 		for n, e := range c.entries {
-			if e.expires.Before(ts) {
-				ts, name = e.expires, n
+			if !found || e.expires.Before(ts) {
+				ts, name, found = e.expires, n, true
 			}
 		}
 		delete(c.entries, name)
